@@ -334,3 +334,53 @@ func (d *DepSet) ContainsEquiv(v ssa.Value) bool {
 	}
 	return false
 }
+
+// FieldOfExternal resolves field `field` of struct type `typ` in a dependency package
+// (promoted fields of embedded structs are searched too).
+func (p *Program) FieldOfExternal(pkgPath, typ, field string) *types.Var {
+	var found *types.Var
+	seen := map[*types.Package]bool{}
+	var findIn func(t types.Type, depth int) *types.Var
+	findIn = func(t types.Type, depth int) *types.Var {
+		if pt, ok := t.Underlying().(*types.Pointer); ok {
+			t = pt.Elem()
+		}
+		st, ok := t.Underlying().(*types.Struct)
+		if !ok || depth > 4 {
+			return nil
+		}
+		for i := 0; i < st.NumFields(); i++ {
+			if st.Field(i).Name() == field {
+				return st.Field(i)
+			}
+		}
+		for i := 0; i < st.NumFields(); i++ {
+			if st.Field(i).Embedded() {
+				if v := findIn(st.Field(i).Type(), depth+1); v != nil {
+					return v
+				}
+			}
+		}
+		return nil
+	}
+	var visit func(pk *types.Package)
+	visit = func(pk *types.Package) {
+		if pk == nil || seen[pk] || found != nil {
+			return
+		}
+		seen[pk] = true
+		if pk.Path() == pkgPath {
+			if tn, ok := pk.Scope().Lookup(typ).(*types.TypeName); ok {
+				found = findIn(tn.Type(), 0)
+			}
+			return
+		}
+		for _, imp := range pk.Imports() {
+			visit(imp)
+		}
+	}
+	for _, pk := range p.Pkgs {
+		visit(pk.Types)
+	}
+	return found
+}
